@@ -20,7 +20,16 @@ def scratch():
     """Per-process scratch root, removed on exit (also on failure)."""
     global _scratch
     if _scratch is None:
-        base = os.environ.get('VERIF_SCRATCH', '/var/tmp')
+        base = os.environ.get('VERIF_SCRATCH')
+        if not base:
+            # tmpfs when there is one: 16 parallel builds contend badly on the disk-backed file system
+            base = '/var/tmp'
+            try:
+                st = os.statvfs('/dev/shm')
+                if os.access('/dev/shm', os.W_OK) and st.f_bavail * st.f_frsize > 4 << 30:
+                    base = '/dev/shm'
+            except OSError:
+                pass
         _scratch = os.path.join(base, 'verif.%d' % os.getpid())
         shutil.rmtree(_scratch, ignore_errors=True)
         os.makedirs(_scratch)
